@@ -287,14 +287,22 @@ pub fn case_layers(bytes: &[u8], _s: &[u8], ctx: &mut Ctx) -> Result<(), Fail> {
                 _ => {
                     let h = top.register_histogram(&key, &META);
                     for u in &op.updates {
-                        h.record(*u as f64);
+                        // every third value goes in as a batch of 0-3 copies
+                        if *u % 3 == 0 {
+                            h.record_many(*u as f64, (*u / 3) as usize % 4);
+                        } else {
+                            h.record(*u as f64);
+                        }
                     }
                 }
             }
             for u in &op.updates {
-                for (leaf, name) in &targets {
-                    let k = Key::from_parts(name.clone(), op.labels.iter().map(|(k, v)| Label::new(k.clone(), v.clone())).collect::<Vec<_>>());
-                    expected.entry(*leaf).or_default().push(Expect::Update(format!("{}", k), *u));
+                let copies = if op.kind != 'c' && op.kind != 'g' && *u % 3 == 0 { (*u / 3) as usize % 4 } else { 1 };
+                for _ in 0..copies {
+                    for (leaf, name) in &targets {
+                        let k = Key::from_parts(name.clone(), op.labels.iter().map(|(k, v)| Label::new(k.clone(), v.clone())).collect::<Vec<_>>());
+                        expected.entry(*leaf).or_default().push(Expect::Update(format!("{}", k), *u));
+                    }
                 }
             }
         }
